@@ -2,6 +2,7 @@
 import itertools
 
 from harness import gen_loc
+from harness.impl_loc import strip_history, hist_twin  # noqa
 from harness.impl_loc import enc_loc
 from harness.impl_algebra import impl_algebra_op, enc_parent
 
@@ -42,6 +43,38 @@ def impl(line):
     return impl_algebra_op(line)
 
 
+def lean_line(line):
+    """history-free form of a line for the Lean drivers (see engine.evaluate, impl_loc.parse_loc kind `H`)"""
+    return " ".join(strip_history(line.split())) if " H " in line else line
+
+
+def _lit_starts(t):
+    """token indices of the kind tokens of the located literals `P n (id type seq)^n <kind> …` of a line"""
+    out, i = [], 1
+    while i < len(t):
+        if t[i] == "P" and i + 1 < len(t) and t[i + 1].isdigit():
+            i += 2 + 3 * int(t[i + 1])
+            if i < len(t) and t[i] in ("S", "C", "E"):
+                out.append(i)
+                i += 1 if t[i] == "E" else (4 if t[i] == "S" else 3 + 2 * int(t[i + 2]))
+                continue
+        i += 1
+    return out
+
+
+def cases(run):
+    """every case, plus — for a share of them — the twin reached through a call history (operands warmed, then rebuilt by
+    reset_strand / reverse_strand / shift_position(0) / reset_parent)"""
+    share = 0.04 if run.tier == "quick" else 0.1
+    for ln in _cases(run):
+        yield ln
+        if run.rng.random() < share:
+            h = hist_twin(ln, run.rng, _lit_starts(ln.split()))
+            if h:
+                run.count("history-twin")
+                yield h
+
+
 def spec_skip(line):
     """the spec enumerates positions: skip it on huge coordinates (model-vs-implementation only there)"""
     t = line.split()
@@ -51,7 +84,7 @@ def spec_skip(line):
 def nontrivial(line, ans):
     if not ans.startswith("ok"):
         return None
-    t = line.split()
+    t = strip_history(line.split())
     multi = False
     both_par = 0
     i = 1
@@ -155,7 +188,7 @@ def parent_pool(n):
     }
 
 
-def cases(run):
+def _cases(run):
     global EXHAUSTIVE_NOTE
     quick = run.tier == "quick"
     rng = run.rng
